@@ -122,6 +122,32 @@ def extra_catalog():
     return out
 
 
+CLEAN = [False]      # True in the clean child process that computes a sibling's reference rollout
+
+
+def _csv_rewritten_sibling():
+    """BinPack from a CSV file whose path was used before, in this process, for ANOTHER instance (export - edit - reload
+    on a scratch file): a fresh generator must serve what the file holds now. The clean child process only ever sees the
+    final file."""
+    import os
+
+    import jax
+    import jumanji.environments as E
+    from harness.common import WORK
+    from jumanji.environments.packing.bin_pack.generator import CSVGenerator, RandomGenerator, save_instance_to_csv
+
+    path = os.path.join(WORK, f"c02_rewritten_{os.getpid()}.csv")
+    gen = RandomGenerator(max_num_items=6, max_num_ems=15, split_num_same_items=1)
+    if not CLEAN[0]:
+        save_instance_to_csv(gen(jax.random.PRNGKey(11)), path)
+        CSVGenerator(path, max_num_ems=15)(jax.random.PRNGKey(0))         # history: the same path, other content
+    save_instance_to_csv(gen(jax.random.PRNGKey(12)), path)
+    env = E.BinPack(generator=CSVGenerator(path, max_num_ems=15))
+    jax.jit(env.reset)(jax.random.PRNGKey(0))
+    os.remove(path)
+    return env
+
+
 def siblings(name):
     """Other CONFIGURATIONS of the same environment class. Building and using them in the same process must not
     influence a fresh instance of the configuration under test (no cache keyed by part of the configuration)."""
@@ -137,6 +163,8 @@ def siblings(name):
             out = [lambda: E.RobotWarehouse(generator=RG(shelf_rows=1, shelf_columns=3, column_height=17, num_agents=4, sensor_range=1, request_queue_size=8), time_limit=3),
                    lambda: E.RobotWarehouse(generator=RG(shelf_rows=3, shelf_columns=3, column_height=5, num_agents=4, sensor_range=1, request_queue_size=8), time_limit=3),
                    lambda: E.RobotWarehouse(generator=RG(shelf_rows=2, shelf_columns=3, column_height=8, num_agents=2, sensor_range=1, request_queue_size=4), time_limit=3)]
+        elif base == "BinPack":
+            out = [_csv_rewritten_sibling]
         elif base == "Snake":
             out = [lambda: E.Snake(num_rows=5, num_cols=4, time_limit=3), lambda: E.Snake(num_rows=4, num_cols=5, time_limit=9)]
         elif base == "Tetris":
@@ -445,6 +473,7 @@ def main():
 
         setup_env()
         name, si, seed = sys.argv[2], int(sys.argv[3]), int(sys.argv[4])
+        CLEAN[0] = True
         print("SIBLING_DIGEST " + sibling_rollout_digest(siblings(name)[si](), seed))
         return
     name, tier, seed, out = sys.argv[1:5]
